@@ -115,6 +115,12 @@ def port_to_line_data(
            [1, 1, 1, 1, 1, 1, 1, 0]], dtype=uint8)
     """
     port_size = port_data.dtype.itemsize * 8
+    if mask > bit_mask(port_size):
+        raise ValueError(
+            "The mask must not have bits set beyond the width of the port.\n\n"
+            f"Mask: {mask}\n"
+            f"Port width: {port_size}"
+        )
     # Lay the samples out contiguously with the most significant byte first when bitorder='big' and
     # the least significant byte first when bitorder='little', whatever the byte order or strides
     # of the input array, so that unpackbits yields the bits of each sample in order.
